@@ -84,6 +84,20 @@ def _replay(stem, vals):
                 msgs.append("prop('atype', index=0, value=0) stored an atom type below 1: %r" % a.atype.tolist())
         except ValueError:
             pass
+        # a refused write stores nothing
+        for ix, val in ((1, 0), (-1, -2), ([0, 2], [3, 0]), (slice(0, 2), [0, 4]), ([True, False, True], 0)):
+            r_ = am.Atoms(atype=[1, 2, 1], pos=np.arange(9.).reshape(3, 3))
+            try:
+                r_.prop('atype', index=ix, value=val)
+            except ValueError:
+                if r_.view['atype'].tolist() != [1, 2, 1]:
+                    msgs.append("prop('atype', index=%r, value=%r) is refused but the stored types are now %r (were [1, 2, 1])" % (ix, val, r_.view['atype'].tolist()))
+        # the Atoms handed to atoms_extend is an operand: unchanged
+        sb = am.System(atoms=am.Atoms(atype=[1], pos=[[0., 0., 0.]]), box=am.Box(vects=[[4., 0, 0], [1., 5., 0], [0.5, -0.5, 6.]], origin=[0.5, -1., 2.]))
+        add = am.Atoms(atype=[2], pos=[[0.5, 0.5, 0.5]])
+        sb.atoms_extend(add, scale=True)
+        if add.pos.tolist() != [[0.5, 0.5, 0.5]]:
+            msgs.append('atoms_extend(value, scale=True) changed the positions of the Atoms it was given to %r' % add.pos.tolist())
         s = am.System(atoms=am.Atoms(atype=[1, 1, 1, 1], pos=np.array([[0, 0, 0], [1, 1, 1], [2, 2, 2], [3, 3, 3.]])), box=am.Box.cubic(4.0))
         before = s.atoms.pos.copy()
         s2 = s.atoms_extend(am.Atoms(atype=[1], pos=[[0.5, 0.5, 0.5]]), scale=True)
@@ -271,6 +285,9 @@ def atype_ge1(E, L):
         'prop(key,value)': lambda a: a.prop('atype', value=[1, 1, 0]),
         'prop(key,index,value)': lambda a: a.prop('atype', index=1, value=0),
         'prop(key,index=list,value)': lambda a: a.prop('atype', index=[0, 2], value=[0, 0]),
+        'prop(key,index=list,mixed)': lambda a: a.prop('atype', index=[0, 2], value=[3, 0]),
+        'prop(key,index=neg,value)': lambda a: a.prop('atype', index=-1, value=-2),
+        'prop(key,index=slice,value)': lambda a: a.prop('atype', index=slice(0, 2), value=[0, 4]),
         'constructor': lambda a: mod.Atoms(atype=[1, 0], pos=[[0, 0, 0], [1, 1, 1]]),
     }
     for nm, f in paths.items():
@@ -281,6 +298,9 @@ def atype_ge1(E, L):
             E.prove('atype_ge1.refused_or_unchanged[%s]' % nm, ok)
         except ValueError:
             E.prove('atype_ge1.refused_or_unchanged[%s]' % nm, True)
+            if nm != 'constructor':
+                # a refused write stores nothing: the types (and everything else) read back as before
+                E.prove('atype_ge1.refusal_stores_nothing[%s]' % nm, same_elems(_np.asarray(a.view['atype'], dtype=object), va['atype']) and same_elems(a.view['pos'], va['pos']))
     x = E.real('x')
     E.canary('atype_ge1.canary', x == 0)
 
@@ -408,8 +428,11 @@ def _ops(am, np, rng):
             rel = np.array([[0.5, 0.5, 0.5], [0.25, 0.0, 0.75]])
             cart = rel.dot(V) + o
             add = am.Atoms(atype=[2, 3], pos=(rel if scale else cart).copy(), extra=[5, 6])
-            keep = add.pos.copy()
+            keep = {k: add.view[k].copy() for k in add.view}
             s2 = s.atoms_extend(add, scale=scale)
+            for k in keep:
+                if not np.array_equal(add.view[k], keep[k]):
+                    raise AssertionError('atoms_extend(scale=%r) changed the %s of the Atoms it was given (operand of an operation that returns a new system)' % (scale, k))
             m2 = Model([dict(r) for r in m.recs], m.symbols, m.masses)
             for r in m2.recs:
                 r.setdefault('extra', 0)
@@ -449,19 +472,32 @@ def _ops(am, np, rng):
         m.recs[0]['atype'] = 3
         return s, m
 
+    def refused_atype(kind):
+        def f(s, m):
+            n = s.natoms
+            ix, val = {'int': (1 % n, 0), 'neg': (-1, -2), 'list': ([n - 1, 0], [2, 0]), 'slice': (slice(0, 2), [0, 3][:min(2, n)]), 'bool': ([i == 0 for i in range(n)], 0)}[kind]
+            try:
+                s.atoms_prop('atype', index=ix, value=val)
+            except ValueError:
+                pass                     # the documented refusal; the model is not changed: nothing may have been stored
+            else:
+                raise AssertionError('an atom type below 1 was accepted by atoms_prop(index=%r)' % (ix,))
+            return s, m
+        return f
+
     def deep(s, m):
         s2 = copy.deepcopy(s)
         s2.atoms.pos[0] = [7.0, 7.0, 7.0]        # must not affect s
         return s, m
     return [('set_scalar', set_scalar), ('set_new_len1', set_new_len1), ('set_full_view', set_full_view)] + [('prop_indexed_%s' % k, prop_indexed(k)) for k in ('int', 'neg', 'slice', 'list', 'bool')] + \
-           [('prop_atype', prop_atype_one), ('extend_count', extend_count), ('extend_atoms', extend_atoms(False)), ('extend_atoms_scaled', extend_atoms(True)), ('atoms_ix', sub_system),
+           [('prop_atype', prop_atype_one), ('extend_count', extend_count), ('extend_atoms', extend_atoms(False)), ('extend_atoms_scaled', extend_atoms(True)), ('atoms_ix', sub_system)] + [('refused_atype_%s' % k, refused_atype(k)) for k in ('int', 'neg', 'list', 'slice', 'bool')] + [
             ('setitem', setitem_atoms), ('longer_symbols', longer_symbols), ('retype', retype), ('deepcopy', deep)]
 
 
 @group('sequences', kind='bounded', files=[ATF, SYSF], functions=['Atoms.*', 'System.atoms_prop', 'System.atoms_extend', 'System.atoms_ix', 'System.symbols', 'System.masses', 'System.natypes'],
        clause='after any sequence of edits every property holds one entry per atom, rows stay aligned with an independent record-per-atom model, atom types stay >= 1, symbols and masses are '
               'never shorter than the number of atom types, copying accessors do not alias and operand systems are left unchanged',
-       rule='17 operations (attribute/view assignment with scalar/length-1/full values, indexed writes with int/negative/slice/list/boolean index, per-type assignment, extend by count / by Atoms '
+       rule='22 operations (indexed writes of an atom type below 1 (refused: nothing stored), attribute/view assignment with scalar/length-1/full values, indexed writes with int/negative/slice/list/boolean index, per-type assignment, extend by count / by Atoms '
             'with differing properties / with box-scaled positions, atoms_ix, __setitem__, symbols/masses, in-place retype, deepcopy); all sequences of length 1 and 2, seeded sequences of length 3-4; '
             'every 4th sequence starts from positions given as whole Python ints; distinct by sequence; non-trivial = length >= 2')
 def sequences(tier, seed):
